@@ -147,4 +147,19 @@ for n_code, skind, name in (((1 << 1) | 0, 0, "pippenger88"), ((7 << 1) | 0, 7, 
     e = Enc(9).u8(n_code).u8(1, skind, 0x80).u16(3).u32(0xC0FFEE).named(27)
     e.u8(3, 0x64, 0x83, 0x25, 0, 0x01, 2, 0x42)                 # a few explicit (point, scalar) descriptors, the rest comes from the PRNG
     save("mm_" + name, e)
+# chosen-result constructions (result drawn from the fold-window edge set, second operand solved for by the target)
+e = Enc(1)
+e.u8(S["LOAD"], 0, 0, 0).named(27).u8(1)
+for k in (5, 6, 8, 9, 3, 12):
+    e.u8(23, 2, 0, 1, k, 3).raw(bytes(range(40, 72)))
+e.u8(25, 3, 4, 5, 40).raw(bytes(range(1, 33))).u8(8, 3).raw(bytes(range(9, 41))).u32(5).u32(77).u8(1, 1)
+e.u8(26, 6, 4, 5, 5, 3, 1, 1); e.u8(27, 7, 0, 1, 6, 3); e.u8(28, 7, 2, 3, 0, 0x85, 30, 1).raw(bytes(range(7, 39))).u8(1)
+save("sc_chosen_result", e)
+e = Enc(0)
+e.u8(F["LOAD_MOD"], 0, 0).named(4)
+for k in (5, 6, 8, 12, 11, 3):
+    e.u8(30, 2, 0, k, 1, k, 3).raw(bytes(range(50, 82)))
+e.u8(32, 3, 4, 60, 0x85, 5).raw(bytes(range(2, 34))).u8(9, 3).raw(bytes(range(3, 35))).raw(bytes(range(4, 36)))
+e.u8(33, 6, 4, 0x83, 5, 8, 3).raw(bytes(range(5, 37)))
+save("fe_chosen_result", e)
 print("wrote", len(os.listdir(OUT)), "seeds to", os.path.normpath(OUT))
